@@ -209,6 +209,7 @@ type failure struct {
 	Kind  string `json:"kind"`
 	Impl  string `json:"impl"`
 	Want  string `json:"want"`
+	Prev  string `json:"previous_input,omitempty"` // key history: the text the same parser value parsed before
 }
 
 func sameInts(a, b []int) bool {
@@ -378,6 +379,8 @@ type worker struct {
 	skipped    int
 	linted     int
 	linter     *actionlint.Linter
+	parser     *actionlint.ExprParser // one value for all the texts of the worker
+	prev       string
 	accepted   int
 	dist       map[string]int
 	fails      []failure
@@ -444,6 +447,20 @@ func (w *worker) process(in input, seed uint64, sampleMod uint32) {
 		}
 		fmt.Fprintf(w.stdin, "%s\t%s\t%s\n", hex.EncodeToString([]byte(src)), strings.Join(hb, ","), renderObs(obs))
 	}
+	// one parser value for all the texts of this worker: what it parsed before (accepted or rejected)
+	// does not change what it says about this text
+	if w.parser == nil {
+		w.parser = actionlint.NewExprParser()
+	}
+	if ir2 := implParseWith(w.parser, src); !sameInts(ir.obs, ir2.obs) {
+		if len(w.fails) < 2000 {
+			w.fails = append(w.fails, failure{What: "a parser value that has parsed other texts before gives another answer than a fresh one (previous text: " + strconv.Quote(w.prev) + ")",
+				Key: "history:" + src, Input: src, Kind: in.kind, Impl: renderObs([][]int{ir2.obs}), Want: renderObs([][]int{ir.obs}), Prev: w.prev})
+		}
+		w.dist["oracle_failure"]++
+		w.parser = actionlint.NewExprParser()
+	}
+	w.prev = src
 	if f := checkProperty(in, ir); f != nil {
 		if len(w.fails) < 2000 {
 			w.fails = append(w.fails, *f)
@@ -546,6 +563,18 @@ func main() {
 		var f failure
 		hx.Must(json.Unmarshal(b, &f))
 		ir := implParse(f.Input)
+		if strings.HasPrefix(f.Key, "history:") {
+			p := actionlint.NewExprParser()
+			first := implParseWith(p, f.Prev)
+			second := implParseWith(p, f.Input)
+			fmt.Printf("one parser value: %q -> %s, then %q -> %s; a fresh parser value on the second text: %s\n", f.Prev, renderObs([][]int{first.obs}), f.Input, renderObs([][]int{second.obs}), renderObs([][]int{ir.obs}))
+			if !sameInts(second.obs, ir.obs) {
+				fmt.Println("REPLAY: property violated: the answer depends on what the parser value parsed before")
+				os.Exit(1)
+			}
+			fmt.Println("REPLAY: property holds on this input")
+			return
+		}
 		tree, _, ok := refParse(f.Input)
 		fmt.Printf("input: %q\nimplementation: lex=%s parse=%s\n", f.Input, renderObs(implLex(f.Input)), renderObs([][]int{ir.obs}))
 		if ir.err != nil {
